@@ -692,16 +692,16 @@ Proof.
 Qed.
 
 (* a parenthesised expression as a prefix *)
-Lemma E2_paren x r R n :
-  E1bare x ->
+Lemma E2_paren x r R n m :
+  (forall f, m <=n f -> p_subexpr d f 0 (pr_e 0 0 x ++ tk 41 :: r) = POk (norm_e x) (tk 41 :: r)) ->
   (forall fuel, n <=n fuel -> p_sufloop d fuel (paren_wrap (norm_e x)) true r = R) ->
-  forall fuel, n + c_e x <=n fuel + 3 ->
+  forall fuel, S (Nat.max n m) <=n fuel ->
   p_suffixed d fuel (tk 40 :: pr_e 0 0 x ++ tk 41 :: r) = R.
 Proof.
-  intros H1 Hc fuel Hf. pose proof (c_e_ge x).
+  intros H1 Hc fuel Hf.
   destruct fuel as [|f]; [lia|]. rewrite p_suffixed_eq.
   change (pty (tk 40) =? TIdent) with false. change (pty (tk 40) =? 40) with true. cbv iota.
-  rewrite (E1bare_value x H1 (tk 41 :: r) f) by (auto; lia).
+  rewrite H1 by lia.
   cbn [pbind expect]. change (pty (tk 41) =? 41) with true. cbv iota. apply Hc. lia.
 Qed.
 
@@ -715,18 +715,31 @@ Proof. destruct e; simpl; intros; try discriminate; auto. Qed.
 Lemma E2_nonprefix e : is_prefix e = false -> E1bare e -> E2 e.
 Proof.
   intros Hn H1 Hp r R n Hc fuel Hf. rewrite (nonprefix_pr e Hn). rewrite <- app_comm_cons, <- app_assoc. cbn [app].
-  destruct (nonprefix_norm e Hn Hp) as [En Ef]. rewrite Ef in Hc.
-  apply (E2_paren e r R n H1); auto. rewrite En. exact Hc.
+  destruct (nonprefix_norm e Hn Hp) as [En Ef]. rewrite Ef in Hc. pose proof (c_e_ge e).
+  apply (E2_paren e r R n (c_e e - 5)).
+  - intros f Hfm. apply (E1bare_value e H1); auto. lia.
+  - rewrite En. exact Hc.
+  - lia.
 Qed.
 
-(* E1 in general from the bare case and E2 *)
-Lemma E1_from e : pfx_ok e = true \/ (forall L p, bare_ok L p e = true) -> E1bare e -> E2 e -> E1 e.
+(* E1 in general: an operator / atom expression from its bare case and E2 *)
+Lemma E1_from_bare e : is_prefix e = false -> pfx_ok e = true -> E1bare e -> E2 e -> E1 e.
 Proof.
-  intros Hpf Hb H2 L p r R n Ho Hs Hc fuel Hf.
+  intros Hnp Hpf Hb H2 L p r R n Ho Hs Hc fuel Hf.
   destruct (bare_ok L p e) eqn:B.
   - apply (Hb L p r R n B Ho Hs Hc). lia.
-  - destruct Hpf as [Hpf|Hall]; [|rewrite Hall in B; discriminate].
-    apply (E1_via_E2 e L p (pr_e_wrapped L p e B) Hpf H2 r R n Hs Hc). exact Hf.
+  - apply (E1_via_E2 e L p (pr_e_wrapped L p e B) Hpf H2 r R n Hs Hc). exact Hf.
+Qed.
+
+(* "..." is always bare *)
+Lemma E1_vararg_from : E1bare EVararg -> E1 EVararg.
+Proof. intros Hb L p r R n Ho Hs Hc fuel Hf. apply (Hb L p r R n eq_refl Ho Hs Hc). lia. Qed.
+
+(* a prefix expression is read through primaryexp *)
+Lemma E1_from_prefix e : is_prefix e = true -> pfx_ok e = true -> E2 e -> E1 e.
+Proof.
+  intros Hp Hpf H2 L p r R n Ho Hs Hc fuel Hf.
+  apply (E1_via_E2 e L p (pr_e_prefix_form L p e Hp) Hpf H2 r R n Hs Hc). exact Hf.
 Qed.
 
 (* ----- atoms ----- *)
@@ -761,7 +774,7 @@ Definition P_fb (fb : funcbody) : Prop :=
   p_funcbody d fuel (pr_fb fb ++ r) = POk (norm_fb fb) r.
 
 (* what is known about an expression *)
-Definition P_e (e : expr) : Prop := wf_e e = true -> E1bare e /\ E2 e /\ E1 e.
+Definition P_e (e : expr) : Prop := wf_e e = true -> E2 e /\ E1 e.
 
 (* ----- operators ----- *)
 
@@ -800,10 +813,13 @@ Proof.
   rewrite p_suffixed_eq. change (pty (tname n) =? TIdent) with true. cbv iota. apply Hc. lia.
 Qed.
 
-Lemma E2_paren_case x : E1bare x -> E2 (EParen x).
+Lemma E2_paren_case x : E1 x -> E2 (EParen x).
 Proof.
   intros H1 _ r R n Hc fuel Hf. cbn [pr_prefix]. rewrite <- app_comm_cons, <- app_assoc. cbn [app].
-  apply (E2_paren x r R n H1); auto. cbn [c_e] in Hf. lia.
+  cbn [c_e] in Hf.
+  apply (E2_paren x r R n (1 + c_e x)); auto.
+  - intros f Hfm. apply (E1_value x H1); auto.
+  - lia.
 Qed.
 
 Lemma E2_index q k : pfx_ok q = true -> E2 q -> E1 k -> E2 (EIndex q k).
@@ -858,28 +874,12 @@ Proof.
   rewrite (Ha Wa r f) by lia. cbn [pbind]. apply Hc. lia.
 Qed.
 
-(* a prefix expression read by subexpr: E1bare holds trivially through E2 *)
-Lemma E1bare_prefix e : is_prefix e = true -> pfx_ok e = true -> E2 e -> E1bare e.
-Proof.
-  intros Hp Hpf H2 L p r R n _ Ho Hs Hc fuel Hf.
-  pose proof (c_e_ge e). rewrite (pr_e_prefix_form L p e Hp).
-  destruct fuel as [|f]; [lia|]. rewrite p_subexpr_eq.
-  destruct (pr_prefix_first e r) as (t & X & Et & Ht). rewrite Et.
-  rewrite (unop_of_prefix_first t Ht).
-  destruct f as [|f']; [lia|].
-  rewrite (simple_to_suffixed f' (t :: X) t X eq_refl Ht). rewrite <- Et.
-  rewrite (H2 Hpf r (POk (norm_e e, pflag e) r) 1%nat).
-  - cbn [pbind fst]. apply Hc. lia.
-  - intros fu Hfu. apply sufloop_stop; auto.
-  - lia.
-Qed.
-
 (* ----- function and table constructors ----- *)
 
 Lemma E1bare_function fb : wf_fb fb = true -> P_fb fb -> E1bare (EFunction fb).
 Proof.
   intros W H L p r R n _ Ho Hs Hc fuel Hf. cbn [pr_e norm_e c_e app] in *.
-  destruct fuel as [|[|f]]; [lia|lia|]. rewrite p_subexpr_eq. rewrite <- app_comm_cons.
+  destruct fuel as [|[|f]]; [lia|lia|]. rewrite p_subexpr_eq. rewrite <- ?app_comm_cons.
   change (unop_of (tk TFunction)) with (@None unop). cbv iota.
   rewrite p_simple_eq. cbv zeta. change (pty (tk TFunction)) with TFunction. cbv beta iota.
   change (TFunction =? TNumber) with false. change (TFunction =? TString) with false.
@@ -893,7 +893,7 @@ Lemma E1bare_table fs : wf_fl fs = true -> P_fl fs -> E1bare (ETable fs).
 Proof.
   intros W H L p r R n _ Ho Hs Hc fuel Hf. cbn [pr_e norm_e c_e] in *.
   destruct fuel as [|[|f]]; [lia|lia|]. rewrite p_subexpr_eq.
-  rewrite <- app_comm_cons, <- app_assoc. cbn [app].
+  rewrite <- ?app_comm_cons, <- ?app_assoc. cbn [app].
   change (unop_of (tk 123)) with (@None unop). cbv iota.
   rewrite p_simple_eq. cbv zeta. change (pty (tk 123)) with 123. cbv beta iota.
   change (123 =? TNumber) with false. change (123 =? TString) with false.
@@ -901,4 +901,376 @@ Proof.
   change (123 =? TFalse) with false. change (123 =? T3Comma) with false.
   change (123 =? 123) with true. cbv iota.
   rewrite (H W r f) by lia. cbn [pbind]. apply Hc. lia.
+Qed.
+
+(* ---------- lists of names, parameters ---------- *)
+
+Lemma names_rt sep : forall ns X fuel,
+  ns <> [] -> hd_ty X <> sep -> (length ns <=n fuel) ->
+  p_names fuel sep (sep_names sep ns ++ X) = POk ns X.
+Proof.
+  induction ns as [|a ns IH]; intros X fuel Hne Hx Hf; [congruence|].
+  destruct fuel as [|f]; [simpl in Hf; lia|]. cbn [p_names].
+  destruct ns as [|b ns'].
+  - cbn [sep_names app expect_name]. change (pty (tname a) =? TIdent) with true. cbv iota.
+    change (ptext (tname a)) with a.
+    destruct X as [|t X']; auto. unfold hd_ty in Hx. replace (pty t =? sep) with false by lia. reflexivity.
+  - change (sep_names sep (a :: b :: ns')) with (tname a :: tk sep :: sep_names sep (b :: ns')).
+    cbn [app expect_name]. change (pty (tname a) =? TIdent) with true. cbv iota.
+    change (pty (tk sep)) with sep. rewrite Z.eqb_refl.
+    rewrite (IH X f ltac:(congruence) Hx ltac:(simpl in *; lia)). reflexivity.
+Qed.
+
+Lemma params_rt : forall ps va X fuel,
+  (ps <> [] \/ va = true) -> (length ps < fuel)%nat ->
+  p_params fuel (pr_params ps va ++ tk 41 :: X) = POk (ps, va) X.
+Proof.
+  induction ps as [|a ps IH]; intros va X fuel Hne Hf.
+  - destruct Hne as [H|H]; [congruence|]. subst va. destruct fuel as [|f]; [lia|]. reflexivity.
+  - destruct fuel as [|f]; [lia|]. cbn [p_params].
+    destruct ps as [|b ps'].
+    + destruct va.
+      * cbn [pr_params sep_names app]. change (pty (tname a) =? T3Comma) with false.
+        change (pty (tname a) =? TIdent) with true. cbv iota.
+        change (pty (tk 44) =? 44) with true. cbv iota.
+        change (tk T3Comma :: tk 41 :: X) with (pr_params [] true ++ tk 41 :: X).
+        rewrite (IH true X f) by (auto; simpl in *; lia). reflexivity.
+      * reflexivity.
+    + assert (E : pr_params (a :: b :: ps') va = tname a :: tk 44 :: pr_params (b :: ps') va)
+        by (destruct va; reflexivity).
+      rewrite E. cbn [app]. change (pty (tname a) =? T3Comma) with false.
+      change (pty (tname a) =? TIdent) with true. cbv iota.
+      change (pty (tk 44) =? 44) with true. cbv iota.
+      rewrite (IH va X f) by (try (left; congruence); simpl in *; lia). reflexivity.
+Qed.
+
+(* ---------- "Name =" never opens an expression ---------- *)
+
+Lemma binop_ty_not_eq op : binop_ty op <> 61.
+Proof. destruct op; cbv; congruence. Qed.
+
+Lemma second_ok_notname t l : pty t <> TIdent -> second_ok (t :: l) = true.
+Proof. intros H. destruct l; auto. unfold second_ok. replace (pty t =? TIdent) with false by lia. reflexivity. Qed.
+
+Lemma sec_prefix e : forall r, hd_ty r <> 61 -> second_ok (pr_prefix e ++ r) = true.
+Proof.
+  induction e; intros r Hr;
+    try (cbn [pr_prefix app]; rewrite <- ?app_comm_cons; apply second_ok_notname; cbv; discriminate).
+  - (* EName *) cbn [pr_prefix app]. destruct r as [|t r']; auto. unfold second_ok, hd_ty in *.
+    replace (pty t =? 61) with false by lia. rewrite andb_false_r. reflexivity.
+  - cbn [pr_prefix]. rewrite <- app_assoc. apply IHe1. cbv; discriminate.
+  - cbn [pr_prefix]. rewrite <- app_assoc. apply IHe. cbv; discriminate.
+  - cbn [pr_prefix]. rewrite <- app_assoc. apply IHe. destruct a; cbv; discriminate.
+  - cbn [pr_prefix]. rewrite <- app_assoc. apply IHe. cbv; discriminate.
+Qed.
+
+Lemma sec_e e : forall L p r, hd_ty r <> 61 -> second_ok (pr_e L p e ++ r) = true.
+Proof.
+  induction e; intros L p r Hr;
+    try (cbn [pr_e app]; rewrite <- ?app_comm_cons; apply second_ok_notname; cbv; discriminate);
+    try (rewrite pr_e_prefix_form by reflexivity; apply sec_prefix; exact Hr).
+  - destruct (bare_ok L p (EBin op e1 e2)) eqn:B.
+    + cbn [pr_e]. rewrite B. rewrite <- app_assoc. apply IHe1. cbn [app hd_ty].
+      change (pty (tk (binop_ty op))) with (binop_ty op). apply binop_ty_not_eq.
+    + rewrite pr_e_wrapped by auto. apply sec_prefix; auto.
+  - destruct (bare_ok L p (EUn op e)) eqn:B.
+    + cbn [pr_e]. rewrite B. rewrite <- app_comm_cons. apply second_ok_notname. destruct op; cbv; discriminate.
+    + rewrite pr_e_wrapped by auto. apply sec_prefix; auto.
+Qed.
+
+Lemma is_var_norm e : is_var (norm_e e) = is_var e \/ (exists x, e = EParen x).
+Proof. destruct e; simpl; auto. right; eauto. Qed.
+
+Lemma is_var_norm' e : is_var e = true -> is_var (norm_e e) = true /\ pflag e = false.
+Proof. destruct e; simpl; intros; try discriminate; auto. Qed.
+
+Lemma is_call_norm e : is_call e = true -> is_call (norm_e e) = true /\ pflag e = false /\ pfx_ok e = true.
+Proof. destruct e; simpl; intros; try discriminate; auto. Qed.
+
+(* ---------- expression lists, assignment targets ---------- *)
+
+Definition ptt (es : exprlist) : list ptok :=
+  match es with ELNil => [] | _ => tk 44 :: pr_targets es end.
+
+Definition P_el (es : exprlist) : Prop :=
+  wf_el es = true ->
+  (nonempty_el es = true -> forall r fuel, safe r = true -> c_el es <=n fuel ->
+     p_explist d fuel (pr_el es ++ r) = POk (norm_el es) r)
+  /\ (all_var es = true -> forall r fuel, c_el es <=n fuel ->
+     p_targets d fuel (ptt es ++ tk 61 :: r) = POk (norm_el es) (tk 61 :: r)).
+
+Lemma pr_el_hd es r : nonempty_el es = true -> in_tys efirst_tys (hd_ty (pr_el es ++ r)) = true.
+Proof.
+  destruct es as [|e r0]; [discriminate|]. intros _. cbn [pr_el].
+  destruct r0; [apply pr_e_hd|rewrite <- app_assoc; apply pr_e_hd].
+Qed.
+
+Lemma P_el_nil : P_el ELNil.
+Proof.
+  intros _. split; [discriminate|]. intros _ r fuel Hf. cbn [ptt app norm_el c_el] in *.
+  destruct fuel as [|f]; [lia|]. rewrite p_targets_eq. reflexivity.
+Qed.
+
+Lemma P_el_cons e r0 : P_e e -> P_el r0 -> P_el (ELCons e r0).
+Proof.
+  intros He Hr W. cbn [wf_el] in W. apply andb_true_iff in W. destruct W as [We Wr].
+  destruct (He We) as [H2 H1]. destruct (Hr Wr) as [Hx Ht]. split.
+  - intros _ r fuel Hs Hf. cbn [c_el norm_el] in *. destruct fuel as [|f]; [lia|].
+    rewrite p_explist_eq. destruct r0 as [|e' r1].
+    + cbn [pr_el]. rewrite (E1_value e H1 r f) by (auto using safe_opfollow, safe_nosuf; lia).
+      cbn [pbind norm_el]. destruct r as [|t r']; auto.
+      simpl in Hs. replace (pty t =? 44) with false by lia. reflexivity.
+    + change (pr_el (ELCons e (ELCons e' r1))) with (pr_e 0 0 e ++ tk 44 :: pr_el (ELCons e' r1)).
+      rewrite <- app_assoc. cbn [app].
+      rewrite (E1_value e H1 _ f) by (auto; lia).
+      cbn [pbind]. change (pty (tk 44) =? 44) with true. cbv iota.
+      rewrite (Hx eq_refl r f Hs) by lia. reflexivity.
+  - intros Hv r fuel Hf. cbn [all_var] in Hv. apply andb_true_iff in Hv. destruct Hv as [Hve Hvr].
+    destruct (is_var_norm' e Hve) as [Hvn Hfl].
+    assert (Hpf : pfx_ok e = true) by (destruct e; try discriminate; reflexivity).
+    cbn [c_el norm_el] in *. destruct fuel as [|f]; [lia|].
+    assert (E : ptt (ELCons e r0) = tk 44 :: pr_prefix e ++ ptt r0) by (destruct r0; cbn; rewrite ?app_nil_r; reflexivity).
+    rewrite E. cbn [app]. rewrite <- app_assoc. rewrite p_targets_eq.
+    change (pty (tk 44) =? 44) with true. cbv iota.
+    rewrite (H2 Hpf (ptt r0 ++ tk 61 :: r) (POk (norm_e e, pflag e) (ptt r0 ++ tk 61 :: r)) 1%nat).
+    + cbn [pbind]. rewrite Hfl, Hvn. cbn [negb andb].
+      rewrite (Ht Hvr r f) by lia. reflexivity.
+    + intros fu Hfu. apply sufloop_stop; auto. destruct r0; reflexivity.
+    + pose proof (c_e_ge e). lia.
+Qed.
+
+(* turning "the first token is in this class" into the tests the parser makes *)
+Ltac by_class H := tys H; lia.
+
+(* ---------- call arguments ---------- *)
+
+Lemma P_a_list es : P_el es -> P_fl FLNil -> P_a (AList es).
+Proof.
+  intros He _ W r fuel Hf. cbn [wf_a pr_a norm_a c_a] in *.
+  destruct fuel as [|f]; [lia|]. rewrite p_args_eq. cbv zeta.
+  rewrite <- app_comm_cons, <- app_assoc. cbn [app].
+  change (pty (tk 40) =? 40) with true. cbv iota. change (pnl (tk 40)) with false. cbn [andb].
+  destruct es as [|e r0].
+  - cbn [pr_el app]. change (pty (tk 41) =? 41) with true. reflexivity.
+  - pose proof (pr_el_hd (ELCons e r0) (tk 41 :: r) eq_refl) as Hh.
+    destruct (pr_el (ELCons e r0) ++ tk 41 :: r) as [|t1 r1] eqn:Et; [discriminate|].
+    cbn [hd_ty] in Hh. replace (pty t1 =? 41) with false by (by_class Hh).
+    rewrite <- Et. destruct (He W) as [Hx _].
+    rewrite (Hx eq_refl (tk 41 :: r) f eq_refl) by lia.
+    cbn [pbind expect]. change (pty (tk 41) =? 41) with true. reflexivity.
+Qed.
+
+Lemma P_a_table fs : P_fl fs -> P_a (ATable fs).
+Proof.
+  intros H W r fuel Hf. cbn [wf_a pr_a norm_a c_a] in *.
+  destruct fuel as [|f]; [lia|]. rewrite p_args_eq. cbv zeta.
+  rewrite <- app_comm_cons, <- app_assoc. cbn [app].
+  change (pty (tk 123)) with 123. change (123 =? 40) with false. change (123 =? TString) with false.
+  change (123 =? 123) with true. cbv iota.
+  rewrite (H W r f) by lia. reflexivity.
+Qed.
+
+Lemma P_a_string s : P_a (AString s).
+Proof.
+  intros _ r fuel Hf. cbn [c_a] in Hf. destruct fuel as [|f]; [lia|]. rewrite p_args_eq. reflexivity.
+Qed.
+
+(* ---------- table fields ---------- *)
+
+Definition P_f (f0 : field) : Prop :=
+  wf_f f0 = true -> forall r fuel, (hd_ty r = 44 \/ hd_ty r = 125) -> c_f f0 <=n fuel ->
+  p_field d fuel (pr_f f0 ++ r) = POk (norm_f f0) r.
+
+Lemma sep_follow r : (hd_ty r = 44 \/ hd_ty r = 125) -> opfollow 0 r = true /\ nosuf r = true /\ hd_ty r <> 61.
+Proof.
+  destruct r as [|t r']; cbn [hd_ty]; [intros [H|H]; discriminate|].
+  intros H. unfold opfollow, nosuf, starts_suffix, binop_of.
+  destruct H as [H|H]; rewrite H; repeat split; try reflexivity; discriminate.
+Qed.
+
+Lemma P_f_pos e : P_e e -> P_f (FPos e).
+Proof.
+  intros He W r fuel Hr Hf. cbn [wf_f pr_f norm_f c_f] in *. destruct (He W) as [_ H1].
+  destruct (sep_follow r Hr) as (Ho & Hs & H61).
+  destruct fuel as [|f]; [lia|]. rewrite p_field_eq.
+  pose proof (pr_e_hd e 0 0 r) as Hh. pose proof (sec_e e 0 0 r H61) as Hsec.
+  destruct (pr_e 0 0 e ++ r) as [|t X] eqn:Et; [discriminate|].
+  cbn [hd_ty] in Hh. replace (pty t =? 91) with false by (by_class Hh).
+  assert (T : ((pty t =? TIdent) && match X with t1 :: _ => pty t1 =? 61 | [] => false end) = false).
+  { destruct X as [|t1 X']; [apply andb_false_r|]. unfold second_ok in Hsec.
+    destruct ((pty t =? TIdent) && (pty t1 =? 61)); auto; discriminate. }
+  rewrite T. rewrite <- Et. rewrite (E1_value e H1 r f Ho Hs) by lia. reflexivity.
+Qed.
+
+Lemma P_f_named n e : P_e e -> P_f (FNamed n e).
+Proof.
+  intros He W r fuel Hr Hf. cbn [wf_f pr_f norm_f c_f] in *. destruct (He W) as [_ H1].
+  destruct (sep_follow r Hr) as (Ho & Hs & H61).
+  destruct fuel as [|f]; [lia|]. rewrite p_field_eq. cbn [app].
+  change (pty (tname n) =? 91) with false. change (pty (tname n) =? TIdent) with true.
+  change (pty (tk 61) =? 61) with true. cbn [andb tl]. cbv iota.
+  rewrite (E1_value e H1 r f Ho Hs) by lia. reflexivity.
+Qed.
+
+Lemma P_f_key k e : P_e k -> P_e e -> P_f (FKey k e).
+Proof.
+  intros Hk He W r fuel Hr Hf. cbn [wf_f pr_f norm_f c_f] in *.
+  apply andb_true_iff in W. destruct W as [Wk We].
+  destruct (Hk Wk) as [_ K1]. destruct (He We) as [_ H1].
+  destruct (sep_follow r Hr) as (Ho & Hs & H61).
+  destruct fuel as [|f]; [lia|]. rewrite p_field_eq.
+  rewrite <- app_comm_cons, <- app_assoc. cbn [app].
+  change (pty (tk 91) =? 91) with true. cbv iota.
+  rewrite (E1_value k K1 _ f) by (auto; lia).
+  cbn [pbind expect]. change (pty (tk 93) =? 93) with true. cbv iota.
+  change (pty (tk 61) =? 61) with true. cbv iota.
+  rewrite (E1_value e H1 r f Ho Hs) by lia. reflexivity.
+Qed.
+
+Lemma pr_f_hd f0 r : in_tys (91 :: efirst_tys) (hd_ty (pr_f f0 ++ r)) = true.
+Proof.
+  destruct f0; cbn [pr_f]; try reflexivity.
+  eapply in_tys_weaken; [|apply pr_e_hd]. simpl. intuition.
+Qed.
+
+Lemma skip_seps_id l : hd_ty l <> 44 -> hd_ty l <> 59 -> skip_seps l = l.
+Proof. destruct l as [|t l']; auto. cbn [hd_ty skip_seps]. intros. replace ((pty t =? 44) || (pty t =? 59)) with false by lia. reflexivity. Qed.
+
+Lemma P_fl_nil : P_fl FLNil.
+Proof.
+  intros _ r fuel Hf. cbn [c_fl] in Hf. destruct fuel as [|f]; [lia|]. rewrite p_fields_eq. reflexivity.
+Qed.
+
+Lemma P_fl_cons f0 r0 : P_f f0 -> P_fl r0 -> P_fl (FLCons f0 r0).
+Proof.
+  intros Hf0 Hr0 W r fuel Hf. cbn [wf_fl norm_fl c_fl] in *.
+  apply andb_true_iff in W. destruct W as [W0 Wr].
+  destruct fuel as [|f]; [lia|]. rewrite p_fields_eq.
+  assert (E : pr_fl (FLCons f0 r0) ++ tk 125 :: r =
+              pr_f f0 ++ (match r0 with FLNil => [] | _ => tk 44 :: pr_fl r0 end) ++ tk 125 :: r).
+  { destruct r0; cbn [pr_fl]; rewrite <- ?app_assoc; reflexivity. }
+  rewrite E. clear E.
+  pose proof (pr_f_hd f0 ((match r0 with FLNil => [] | _ => tk 44 :: pr_fl r0 end) ++ tk 125 :: r)) as Hh.
+  destruct (pr_f f0 ++ _) as [|t X] eqn:Et; [discriminate|].
+  cbn [hd_ty] in Hh. replace (pty t =? 125) with false by (by_class Hh). rewrite <- Et.
+  destruct r0 as [|f1 r1].
+  - cbn [app]. rewrite (Hf0 W0 (tk 125 :: r) f) by (auto; lia).
+    cbn [pbind]. change (pty (tk 125)) with 125. reflexivity.
+  - rewrite <- app_comm_cons.
+    rewrite (Hf0 W0 _ f) by (auto; lia).
+    cbn [pbind]. change (pty (tk 44)) with 44. cbn [Z.eqb Pos.eqb orb].
+    pose proof (pr_f_hd f1 ((match r1 with FLNil => [] | _ => tk 44 :: pr_fl r1 end) ++ tk 125 :: r)) as Hh1.
+    assert (E1 : pr_fl (FLCons f1 r1) ++ tk 125 :: r =
+                 pr_f f1 ++ (match r1 with FLNil => [] | _ => tk 44 :: pr_fl r1 end) ++ tk 125 :: r).
+    { destruct r1; cbn [pr_fl]; rewrite <- ?app_assoc; reflexivity. }
+    assert (Hsk : skip_seps (pr_fl (FLCons f1 r1) ++ tk 125 :: r) = pr_fl (FLCons f1 r1) ++ tk 125 :: r).
+    { apply skip_seps_id; rewrite E1; by_class Hh1. }
+    replace (if d_seps d then skip_seps (pr_fl (FLCons f1 r1) ++ tk 125 :: r) else pr_fl (FLCons f1 r1) ++ tk 125 :: r)
+      with (pr_fl (FLCons f1 r1) ++ tk 125 :: r) by (destruct (d_seps d); auto).
+    rewrite (Hr0 Wr r f) by lia. reflexivity.
+Qed.
+
+(* ---------- blocks and statements ---------- *)
+
+Definition P_b (b : block) : Prop :=
+  wf_b b = true -> forall r fuel, bfollow r = true -> c_b b <=n fuel ->
+  p_block d fuel (pr_b b ++ r) = POk (norm_b b) r.
+
+Definition P_l (l : laststat) : Prop :=
+  wf_l l = true -> forall (sm : bool) r fuel, bfollow r = true -> c_l l + 2 <=n fuel ->
+  p_block d fuel (pr_l l ++ (if sm then [tk 59] else []) ++ r) = POk (BLast (norm_l l) false) r.
+
+Definition P_s (s : stat) : Prop :=
+  wf_s s = true -> forall r fuel, safe r = true -> c_s s <=n fuel ->
+  p_stat d fuel (pr_s s ++ r) = POk (norm_s s) r.
+
+Definition P_else (e : elsepart) : Prop :=
+  wf_else e = true -> forall r fuel, c_else e <=n fuel ->
+  p_else d fuel (pr_else e ++ r) = POk (norm_else e) r.
+
+Lemma bfollow_cases r : bfollow r = true ->
+  r = [] \/ exists t X, r = t :: X /\ (pty t = TEnd \/ pty t = TElse \/ pty t = TElseIf \/ pty t = TUntil).
+Proof.
+  destruct r as [|t X]; auto. cbn [bfollow]. unfold block_follow. intros H. right. exists t, X. split; auto. lia.
+Qed.
+
+Lemma bfollow_safe r : bfollow r = true -> safe r = true /\ hd_ty r <> 59.
+Proof.
+  intros H. destruct (bfollow_cases r H) as [->|(t & X & -> & Ht)]; [split; [reflexivity|discriminate]|].
+  cbn [safe hd_ty]. unfold starts_suffix, binop_of.
+  destruct Ht as [E|[E|[E|E]]]; rewrite E; split; try reflexivity; discriminate.
+Qed.
+
+Lemma skip_semis_id l : hd_ty l <> 59 -> skip_semis l = l.
+Proof. destruct l as [|t l']; auto. cbn [hd_ty skip_semis]. intros. replace (pty t =? 59) with false by lia. reflexivity. Qed.
+
+Lemma demp_id l : hd_ty l <> 59 -> (if d_emptystat d then skip_semis l else l) = l.
+Proof. intros. destruct (d_emptystat d); auto. apply skip_semis_id; auto. Qed.
+
+(* a statement starts with a statement token; with a Name when it does not start with "(" *)
+Lemma starts_paren_false e r : starts_paren_e e = false -> exists n X, pr_prefix e ++ r = tname n :: X.
+Proof.
+  revert r. induction e; intros r H; try discriminate; cbn [starts_paren_e pr_prefix] in *.
+  - eexists _, _. reflexivity.
+  - destruct (IHe1 (tk 91 :: pr_e 0 0 e2 ++ [tk 93] ++ r) H) as (n & X & E).
+    exists n, X. rewrite <- E. rewrite <- !app_assoc. cbn [app]. rewrite <- ?app_assoc. reflexivity.
+  - destruct (IHe ([tk 46; tname n] ++ r) H) as (m & X & E). exists m, X. rewrite <- E, <- app_assoc. reflexivity.
+  - destruct (IHe (pr_a a ++ r) H) as (m & X & E). exists m, X. rewrite <- E, <- app_assoc. reflexivity.
+  - destruct (IHe (tk 58 :: tname n :: pr_a a ++ r) H) as (m & X & E). exists m, X. rewrite <- E, <- app_assoc. reflexivity.
+Qed.
+
+Lemma pr_targets_first ts r : nonempty_el ts = true ->
+  exists e X, ts = ELCons e X /\ exists Y, pr_targets ts ++ r = pr_prefix e ++ Y.
+Proof.
+  destruct ts as [|e r0]; [discriminate|]. intros _. exists e, r0. split; auto.
+  cbn [pr_targets]. destruct r0; [exists r; reflexivity|]. eexists. rewrite <- app_assoc. reflexivity.
+Qed.
+
+Lemma pr_s_hd s r : wf_s s = true -> in_tys sfirst_tys (hd_ty (pr_s s ++ r)) = true.
+Proof.
+  intros W. destruct s; try reflexivity.
+  - cbn [wf_s] in W. repeat (apply andb_true_iff in W; destruct W as [W ?]).
+    cbn [pr_s]. rewrite <- app_assoc. cbn [app].
+    destruct (pr_targets_first targets (tk 61 :: pr_el es ++ r) W) as (e & X & -> & Y & E). rewrite E.
+    eapply in_tys_weaken; [|apply pr_prefix_hd]. simpl. intuition.
+  - cbn [pr_s]. eapply in_tys_weaken; [|apply pr_prefix_hd]. simpl. intuition.
+  - cbn [pr_s]. destruct es; reflexivity.
+Qed.
+
+Definition starts_paren_s (s : stat) : bool :=
+  match s with
+  | SCall e => starts_paren_e e
+  | SAssign (ELCons e _) _ => starts_paren_e e
+  | _ => false
+  end.
+
+Lemma pr_s_hd_noparen s r : wf_s s = true -> starts_paren_s s = false -> hd_ty (pr_s s ++ r) <> 40.
+Proof.
+  intros W H. destruct s; try (cbv; discriminate).
+  - cbn [wf_s] in W. repeat (apply andb_true_iff in W; destruct W as [W ?]).
+    destruct targets as [|e r0]; [discriminate|]. cbn [starts_paren_s] in H. cbn [pr_s pr_targets].
+    destruct r0.
+    + rewrite <- app_assoc. destruct (starts_paren_false e ((tk 61 :: pr_el es) ++ r) H) as (n & X & E).
+      rewrite E. cbv. discriminate.
+    + rewrite <- !app_assoc.
+      match goal with |- hd_ty (pr_prefix e ++ ?Y) <> _ => destruct (starts_paren_false e Y H) as (n & X & E) end.
+      rewrite E. cbv. discriminate.
+  - cbn [starts_paren_s] in H. cbn [pr_s]. destruct (starts_paren_false e r H) as (n & X & E). rewrite E. cbv; discriminate.
+  - cbn [pr_s]. destruct es; cbv; discriminate.
+Qed.
+
+(* what follows a statement inside a block is safe, and is not ";" unless printed *)
+Lemma next_safe b r : wf_b b = true -> bfollow r = true -> starts_paren_b b = false ->
+  safe (pr_b b ++ r) = true /\ hd_ty (pr_b b ++ r) <> 59.
+Proof.
+  intros W Hr Hp. destruct b as [|l sm|s sm r0].
+  - apply bfollow_safe; auto.
+  - cbn [pr_b]. destruct l; split; try reflexivity; cbv; discriminate.
+  - cbn [wf_b] in W. apply andb_true_iff in W. destruct W as [Ws _].
+    cbn [pr_b]. rewrite <- app_assoc.
+    pose proof (pr_s_hd s ((if sm || starts_paren_b r0 then [tk 59] else []) ++ pr_b r0 ++ r) Ws) as Hh.
+    assert (Hs : starts_paren_s s = false) by (destruct s; auto).
+    pose proof (pr_s_hd_noparen s ((if sm || starts_paren_b r0 then [tk 59] else []) ++ pr_b r0 ++ r) Ws Hs) as Hn.
+    destruct (pr_s s ++ _) as [|t X]; [discriminate|].
+    cbn [hd_ty safe] in *. unfold starts_suffix, binop_of. split; by_class Hh.
 Qed.
